@@ -233,6 +233,8 @@ async fn wait_gone(node: &Node, pid: &ExternalPid) -> bool {
 struct GatedRecorder {
     open: Arc<std::sync::atomic::AtomicBool>,
     seen: Arc<Mutex<Vec<(u32, i64)>>>,
+    /// exit notices (from) and monitor notices (monitored, reference words) handed to this process
+    notices: Arc<Mutex<Vec<(PidKey, Option<Vec<u32>>)>>>,
 }
 
 impl Process for GatedRecorder {
@@ -240,10 +242,15 @@ impl Process for GatedRecorder {
         while !self.open.load(Ordering::Acquire) {
             tokio::time::sleep(Duration::from_millis(1)).await;
         }
-        if let Message::Regular { body: OwnedTerm::Tuple(t), .. } = msg {
-            if let (Some(OwnedTerm::Integer(sender)), Some(OwnedTerm::Integer(n))) = (t.first(), t.get(1)) {
-                self.seen.lock().unwrap().push((*sender as u32, *n));
+        match msg {
+            Message::Regular { body: OwnedTerm::Tuple(t), .. } => {
+                if let (Some(OwnedTerm::Integer(sender)), Some(OwnedTerm::Integer(n))) = (t.first(), t.get(1)) {
+                    self.seen.lock().unwrap().push((*sender as u32, *n));
+                }
             }
+            Message::Exit { from, .. } => self.notices.lock().unwrap().push((key(&from), None)),
+            Message::MonitorExit { monitored, reference, .. } => self.notices.lock().unwrap().push((key(&monitored), Some(reference.ids.clone()))),
+            _ => {}
         }
         Ok(())
     }
@@ -262,11 +269,28 @@ async fn burst(ctx: &Ctx, rng: &mut Rng, hid: usize) {
     let node = Arc::new(node);
     let open = Arc::new(std::sync::atomic::AtomicBool::new(false));
     let seen: Arc<Mutex<Vec<(u32, i64)>>> = Default::default();
-    let Ok(target) = node.spawn(GatedRecorder { open: open.clone(), seen: seen.clone() }).await else {
+    let notices: Arc<Mutex<Vec<(PidKey, Option<Vec<u32>>)>>> = Default::default();
+    let Ok(target) = node.spawn(GatedRecorder { open: open.clone(), seen: seen.clone(), notices: notices.clone() }).await else {
         ctx.inconclusive("spawn failed");
         return;
     };
     let _ = node.register(Atom::new("busy"), target.clone()).await;
+    // the busy process watches two others, which fail while its mailbox is being filled: the notices have to wait for
+    // room like everything else, and arrive exactly once
+    let wlog: Arc<Log> = Arc::new(Log::default());
+    let mut watched: Vec<(ExternalPid, Option<Vec<u32>>)> = Vec::new();
+    for w in 0..2 {
+        if let Some(p) = spawn_recorder(&node, &wlog).await {
+            if w == 0 {
+                if node.link(&target, &p).await.is_ok() {
+                    watched.push((p.clone(), None));
+                }
+            }
+            if let Ok(r) = node.monitor(&target, &p).await {
+                watched.push((p.clone(), Some(r.ids.clone())));
+            }
+        }
+    }
     let senders = 1 + rng.below(3);
     let per: usize = *rng.pick(&[400usize, 1000, 1001, 1100, 1800, 3000]);
     ctx.class(&format!("burst/{}senders/{}each", senders, per));
@@ -287,8 +311,16 @@ async fn burst(ctx: &Ctx, rng: &mut Rng, hid: usize) {
             accepted
         }));
     }
-    // let the bursts pile up against the closed gate, then open it
+    // let the bursts pile up against the closed gate; the watched processes fail meanwhile; then open it
     tokio::time::sleep(Duration::from_millis(*rng.pick(&[20u64, 120]))).await;
+    let mut failed: Vec<PidKey> = Vec::new();
+    for (p, _) in &watched {
+        if !failed.contains(&key(p)) {
+            let _ = node.send(p, OwnedTerm::atom("poison")).await;
+            failed.push(key(p));
+        }
+    }
+    tokio::time::sleep(Duration::from_millis(40)).await;
     open.store(true, Ordering::Release);
     let mut accepted: Vec<Vec<i64>> = Vec::new();
     for h in hs {
@@ -307,6 +339,25 @@ async fn burst(ctx: &Ctx, rng: &mut Rng, hid: usize) {
     }
     tokio::time::sleep(Duration::from_millis(20)).await;
     ctx.eval(total as u64);
+    // the notices for the busy process
+    {
+        let t1 = std::time::Instant::now();
+        while t1.elapsed() < Duration::from_secs(5) && notices.lock().unwrap().len() < watched.len() {
+            tokio::time::sleep(Duration::from_millis(5)).await;
+        }
+        let got = notices.lock().unwrap().clone();
+        for (p, r) in &watched {
+            ctx.eval(1);
+            let n = got.iter().filter(|(k, rr)| *k == key(p) && rr == r).count();
+            if n != 1 {
+                ctx.viol(
+                    &format!("C18:{}:{}:watcher-with-a-full-mailbox", if r.is_some() { "monitor-notice" } else { "exit-notice" }, if n == 0 { "missing" } else { "duplicate" }),
+                    "a live process that was linked to / monitoring a process that failed was not notified exactly once (its mailbox was full at the time)",
+                    json!({"burst": hid, "senders": senders, "each": per, "notices_for_this_pair": n, "all_notices": got.len(), "expected_notices": watched.len()}),
+                );
+            }
+        }
+    }
     let got = seen.lock().unwrap().clone();
     for (sidx, acc) in accepted.iter().enumerate() {
         let mine: Vec<i64> = got.iter().filter(|(s, _)| *s as usize == sidx).map(|(_, n)| *n).collect();
@@ -932,7 +983,7 @@ async fn dying_caller(ctx: &Ctx, rng: &mut Rng, hid: usize, yields: bool) {
 }
 
 pub fn run(ctx: &Ctx) {
-    ctx.rule("histories = 3..8 recording processes, 2..6 driver tasks, 20..100 operations each over 1..3 contended names: numbered sends by pid and by name, register/unregister/whereis (call/return stamped from one counter), link/unlink on task-owned pairs, monitor/demonitor, gen_server and gen_event calls; then 1..2 processes are made to fail; offline checkers: per (sender, receiver) in-order duplicate-free complete delivery, exactly-once exit/monitor notices for links/monitors in force before the failure, dead pids and their names no longer resolve and names are reusable, names of live processes (also ones a failed process had held and given up earlier) keep resolving, per-name linearizability (exact search), one reply per behaviour call; behaviour calls whose caller is parked in the middle of terminating (still resolvable) mixed with calls from a live caller, which must all be answered; 2..6 tasks racing to register the same 150..1200 fresh names (each granted exactly once, resolving to the winner); on the multi-thread runtime additionally bursts of 400..3000 numbered messages from 1..3 senders to a process held busy behind a gate (around the mailbox capacity), handled exactly once and in each sender's order; multi-thread runtime and current-thread runtime with seeded yields at the exit-propagation hooks; evaluations = deliveries, notices, name operations and calls judged; distinct = distinct history configurations");
+    ctx.rule("histories = 3..8 recording processes, 2..6 driver tasks, 20..100 operations each over 1..3 contended names: numbered sends by pid and by name, register/unregister/whereis (call/return stamped from one counter), link/unlink on task-owned pairs, monitor/demonitor, gen_server and gen_event calls; then 1..2 processes are made to fail; offline checkers: per (sender, receiver) in-order duplicate-free complete delivery, exactly-once exit/monitor notices for links/monitors in force before the failure, dead pids and their names no longer resolve and names are reusable, names of live processes (also ones a failed process had held and given up earlier) keep resolving, per-name linearizability (exact search), one reply per behaviour call; behaviour calls whose caller is parked in the middle of terminating (still resolvable) mixed with calls from a live caller, which must all be answered; 2..6 tasks racing to register the same 150..1200 fresh names (each granted exactly once, resolving to the winner); on the multi-thread runtime additionally bursts of 400..3000 numbered messages from 1..3 senders to a process held busy behind a gate (around the mailbox capacity), handled exactly once and in each sender's order, while processes the busy one is linked to / monitors fail (their notices arrive exactly once); multi-thread runtime and current-thread runtime with seeded yields at the exit-propagation hooks; evaluations = deliveries, notices, name operations and calls judged; distinct = distinct history configurations");
     ctx.assume("links/monitors are compared as of a quiescent barrier before the failing message is sent; messages accepted after a process was sent its failing message are not required to be handled");
     let mut rng = Rng::derive(ctx.seed, 18, 1);
     let n = ctx.pick(60usize, 8000usize);
